@@ -230,6 +230,13 @@ def make_faults(ctx, rng, thorough):
         except Exception:
             pass
         yield Fault(f"bitflip-gzip@bit{bit}", {"in1.fq.gz": bytes(b)}, None, True, None, detail="gzip-bitflip")
+    # (c'') paired input whose second file is a truncated compressed stream
+    big2 = [(nm.replace(" c", " d"), G.rnd(rng, len(sq)), ql) for nm, sq, ql in big]
+    tb2 = fastx.format_fastq(big2)
+    blob2 = gzip.compress(tb2.encode(), 1, mtime=0)
+    for o in (len(blob2) // 2, len(blob2) - 3):
+        yield Fault(f"truncate-big-gz-R2@{o}of{len(blob2)}", {"in1.fq": tb.encode(), "in2.fq.gz": blob2[:o]}, "two", True,
+                    {"in1.fq": tb, "in2.fq.gz": tb2}, detail="paired, R2 gzip truncated")
     # (d) FASTA truncations: every prefix is well-formed unless it ends inside/just after nothing
     fa = fastx.format_fasta(recs1)
     offs_fa = range(0, len(fa), 2) if thorough else position_classes(fa, rng, per_class=1)
